@@ -5,5 +5,6 @@ CONSTANTS
   NDel = 2
   NCons = 2
   FixStale = TRUE
+VIEW view
 INVARIANTS QuiescentOK HeadFlagOK
 CHECK_DEADLOCK FALSE
